@@ -112,6 +112,10 @@ def main() -> int:
         print(f"VIOLATION property={prop} replay={path}")
         print(f"  {v.what}")
         rc = 1
+    if broken and unknown:
+        # a failing input exists: the VIOLATION lines above carry the replays; still say what no longer checks
+        for b in broken:
+            print("  note: no longer checks: " + b[:400])
     if broken and not unknown:
         path = C.write_replay(prop, "unchecked", {"property": prop, "seed": seed, "no_longer_checks": broken, "build_log": build.log[-4000:] if build and not build.ok else "", "facts": C.jsonable(facts)})
         print(f"VIOLATION property={prop} replay={path} no-failing-input-found")
@@ -167,7 +171,12 @@ def _first_error(log: str) -> str:
 def _slug(s: str) -> str:
     import re
 
-    return re.sub(r"[^A-Za-z0-9]+", "_", s)[:60].strip("_") or "case"
+    import hashlib
+
+    base = re.sub(r"[^A-Za-z0-9]+", "_", s).strip("_") or "case"
+    if len(base) <= 60:
+        return base
+    return base[:50] + "_" + hashlib.sha1(s.encode()).hexdigest()[:8]
 
 
 if __name__ == "__main__":
